@@ -4,14 +4,16 @@
    (fire in any order with any outcome, before or after the start; cancel at every
    suspension point), for ND leaf Deferreds and NG invocations. *)
 EXTENDS InlineCB, TLC
-CONSTANTS ND, NG, MaxLevel
+CONSTANTS ND, NG, MaxLevel,
+          FireOuts,    \* outcomes the driver fires leaves with (failure kinds are opaque to the spec)
+          RaiseKinds   \* kinds of exception a body raises uncaught
 
 Init == InitWith([nd |-> ND, ng |-> NG])
 
 Outs == {<<"ok", 21>>, <<"err", 31>>, <<"cancelled", 0>>}
 
 StartA == Start("any")
-DFireA == \E d \in Leaves, o \in {"ok", "err", "berr"} : DFire(d, o)
+DFireA == \E d \in Leaves, o \in FireOuts : DFire(d, o)
 DCancelA == \E g \in Invs : DCancel(g)
 DCancelLeafA == \E d \in Leaves : DCancelLeaf(d)
 CancellerCalledA == \E d \in Leaves, k \in Kinds : CancellerCalled(d, k)
@@ -24,7 +26,7 @@ YieldChildA == \E g \in Invs, c \in Invs : YieldChild(g, c)
 SpawnA == \E g \in Invs : Spawn(g, "any")
 SpawnYieldA == \E g \in Invs : SpawnYield(g, "any")
 ReturnA == \E g \in Invs : Finish(g, "return", <<"ok", 21>>)
-RaiseA == \E g \in Invs, o \in {<<"err", 31>>, <<"berr", 32>>, <<"cancelled", 0>>} : Finish(g, "raise", o)
+RaiseA == \E g \in Invs, k \in RaiseKinds : Finish(g, "raise", <<k, IF k = "cancelled" THEN 0 ELSE 31>>)
 
 Next == StartA \/ DFireA \/ DCancelA \/ DCancelLeafA \/ End
         \/ CancellerCalledA \/ LeafFiresA \/ ResumeA \/ FireResultA
